@@ -16,7 +16,7 @@ RULE = ("case = (history of 0..5 earlier runs already in data.json, new run whos
         "with byte count, close, replace) is translated to Crash.v operations and compared with the model's trace for the scheme it "
         "follows (in-place: cr_save_inplace, temp+replace: cr_save_atomic; anything else = unknown scheme). Then the fault is "
         "injected at operation k - interrupt mode: EVERY k when the trace has <= 4000 (thorough 12000) operations; death mode: "
-        "EVERY k when it has <= 300 (thorough 1000) operations; longer traces: every non-write operation (a stratified "
+        "EVERY k when it has <= 200 (thorough 1000) operations; longer traces: every non-write operation (a stratified "
         "sample of them for the 2 MB payloads), the first/last 6 f.write calls, writes next to a raw write and a seeded sample of "
         "the others (the f.write calls between two raw writes leave the same kernel-visible file) - in three modes: i = the k-th operation raises a BaseException, "
         "d = a forked child calls os._exit at the k-th operation, m = (raw writes) half of the bytes reach the kernel, then "
@@ -163,21 +163,21 @@ def choose_points(ctx, events):
         return o | set(writes[:ends] + writes[-ends:]) | sample(writes, n_writes) | sample(adj, n_adj)
 
     every_i = 4000 if q else 12000
-    every_d = 300 if q else 1000
+    every_d = 200 if q else 1000
     if len(inj) <= every_i:
         pi = set(allidx)
     elif len(inj) <= 60000:
-        pi = stratified(*((30, 24, 10) if q else (100, 80, 30)))
+        pi = stratified(*((20, 14, 6) if q else (100, 80, 30)))
     else:
-        pi = stratified(*((6, 2, 2) if q else (16, 10, 6)))
+        pi = stratified(*((4, 2, 1) if q else (16, 10, 6)))
     if len(inj) <= every_d:
         pd = set(allidx)
     elif len(inj) <= every_i:
-        pd = stratified(*((40, 30, 10) if q else (200, 200, 60)))
+        pd = stratified(*((30, 20, 8) if q else (200, 200, 60)))
     elif len(inj) <= 60000:
-        pd = stratified(*((30, 12, 8) if q else (100, 80, 30)))
+        pd = stratified(*((20, 10, 6) if q else (100, 80, 30)))
     else:
-        pd = stratified(*((6, 2, 2) if q else (16, 10, 6)))
+        pd = stratified(*((4, 2, 1) if q else (16, 10, 6)))
     sel = pi | pd
     return (None if len(sel) == len(inj) else sel), sorted(pi), sorted(pd)
 
